@@ -30,7 +30,7 @@ func Run(r *ev.Run) {
 	nTwo := len(us) - nChain
 	gen.DynExtra(func(u *gen.Universe) { us = append(us, u) })
 	r.Rule(fmt.Sprintf("G-dyn: chains of 1..%d resources (all hop kinds up to length %d, 3 resp. 2 hop kinds beyond) (each with $dynamicAnchor n / $anchor n / none on a unique const marker) x every hop kind ($ref, fragment-less $dynamicRef, allOf[$ref], items->$ref, anyOf[false,$ref]) x every final $dynamicRef form (#n, rJ.json#n, pointer, off-chain x.json#n / y.json#n) x placement (embedded / loader / alternating); ", maxK, fullK) +
-		"extra families: a static $ref naming a dynamic anchor and two dynamic names (n, k, plus a decoy z) in scope over chains of 2-3 resources x 4 anchor kinds per resource x 7 final forms; the extensible-tree pattern with the anchor on the resource roots (3x3 anchor kinds, 3 final forms, 3 strict variants); a resource nested inside an embedded resource; loaded documents whose $id differs from the retrieval URI, is relative, or is absent; " +
+		"extra families: a static $ref naming a dynamic anchor and two dynamic names (n, k, plus a decoy z) in scope over chains of 2-3 resources x 4 anchor kinds per resource x 7 final forms; the extensible-tree pattern with the anchor on the resource roots (3x3 anchor kinds, 3 final forms, 3 strict variants; also with a second, default-carrying extension embedded in the root and resolved with ValidateDefaults); a resource nested inside an embedded resource; loaded documents whose $id differs from the retrieval URI, is relative, or is absent; " +
 		"two-scope roots reaching one $dynamicRef through two resources in one call under 12 combinators x 54 anchor-kind assignments; each universe is validated on its marker instances and compared with R1's dynamic scope. " +
 		"Histories: on ONE Resolved, for every first call a tour of calls in which every ordered pair of 5 instances (up to 3 that R1 accepts, the rest rejected) is adjacent (quick: every 4th universe; every 32nd universe: every sequence of 3 calls, each on its own Resolved), each verdict compared with the verdict of the same call on a fresh Resolved; states = distinct (universe, call-history) prefixes, transitions = Validate calls. Non-trivial = R1 evaluated an applicable keyword")
 	r.Assume("R1's dynamic scope = list of schema resources entered; $dynamicRef is dynamic only when its initially resolved target carries $dynamicAnchor of the fragment's name (validated on dynamicRef.json and the rest of the suite at start-up)")
@@ -48,6 +48,10 @@ func Run(r *ev.Run) {
 		u := us[i]
 		pool := drive.MkPool(gen.Vals(u.Insts...))
 		drive.Against(r, j, u.Root, pool, drive.Opt{Draft: ref.D2020, BaseURI: u.Base, Docs: u.Docs, DocsKey: u.DocsKey()})
+		if u.Meta["vd"] == 1 || u.Kind == "tree" {
+			// what Resolve evaluated for ValidateDefaults must not influence later Validate calls
+			drive.Against(r, j, u.Root, pool, drive.Opt{Draft: ref.D2020, BaseURI: u.Base, Docs: u.Docs, DocsKey: u.DocsKey(), Prefix: "ValidateDefaults: ", ValidateDefaults: true})
+		}
 		if i%4999 == 0 {
 			r.Sample(map[string]any{"kind": u.Kind, "root": u.Root, "loader_documents": u.Docs, "instances": u.Insts})
 		}
